@@ -3,6 +3,7 @@ package props
 import (
 	"bytes"
 	"encoding/csv"
+	"encoding/hex"
 	"encoding/json"
 	"fmt"
 	"os"
@@ -41,9 +42,26 @@ type c19Case struct {
 	Present     bool       `json:"present"`                // output file exists beforehand
 	PresentKind string     `json:"present_kind,omitempty"` // index (default) | empty | bytes
 	Plain       bool       `json:"plain,omitempty"`        // written by encoding/csv's writer instead of quoting every field
+	RawHex      string     `json:"raw_hex,omitempty"`      // the input file, hex-encoded (for bytes that are not valid UTF-8)
+	Flags       []string   `json:"flags,omitempty"`        // additional command-line flags (e.g. -v)
+	Shape       string     `json:"shape,omitempty"`        // "k4096": generated records with values on exactly 4096 / 8192 / 5 records
 }
 
 func (c c19Case) sig() string {
+	fl := ""
+	if len(c.Flags) > 0 {
+		fl = fmt.Sprintf(" flags=%v", c.Flags)
+	}
+	if c.RawHex != "" {
+		b, _ := hex.DecodeString(c.RawHex)
+		return fmt.Sprintf("raw=%q output-present=%v%s", string(b), c.Present, fl)
+	}
+	if c.Shape != "" {
+		return fmt.Sprintf("header=%q records=%d generated records (shape %s)%s", c.Header, len(c.Records), c.Shape, fl)
+	}
+	if len(c.Flags) > 0 {
+		return fmt.Sprintf("header=%q records=%d records (i, i mod 7)%s", c.Header, len(c.Records), fl)
+	}
 	if len(c.Records) > 20 {
 		return fmt.Sprintf("header=%q records=%d generated records (i, i mod 7) output-present=%v", c.Header, len(c.Records), c.Present)
 	}
@@ -54,6 +72,10 @@ func (c c19Case) sig() string {
 }
 
 func (c c19Case) csv() []byte {
+	if c.RawHex != "" {
+		b, _ := hex.DecodeString(c.RawHex)
+		return b
+	}
 	if c.Raw != "" {
 		if c.Raw == "<empty>" {
 			return nil
@@ -143,6 +165,10 @@ func c19Check(ctx *rt.Ctx, c c19Case) (viol string) {
 		if big {
 			args = append(args, "--big")
 			mode = "--big"
+		}
+		args = append(args, c.Flags...)
+		if len(c.Flags) > 0 {
+			mode += " " + strings.Join(c.Flags, " ")
 		}
 		cmd := exec.Command(bin, append(args, in)...)
 		cmd.Env = append(os.Environ(), "TMPDIR="+dir)
@@ -265,6 +291,51 @@ func c19Worker(ctx *rt.Ctx, job *rt.Job) []*rt.Violation {
 			}
 		}
 		return vs
+	case "k4096":
+		// values that occur on exactly 4096 and 8192 records (and one on 5): buffer-sized runs in the big writer
+		c := c19Case{Header: []string{"X", "K", "id"}, Shape: "k4096"}
+		for i := 0; i < 4096+8192+5; i++ {
+			x := "c"
+			if i < 4096 {
+				x = "a"
+			} else if i < 4096+8192 {
+				x = "b"
+			}
+			c.Records = append(c.Records, []string{x, fmt.Sprint(i % 3), fmt.Sprint(i)})
+		}
+		n = job.Shard
+		run(c)
+		return vs
+	case "flags":
+		// the global flags must not change what is created: -v with no, 3 and 1001 records
+		for _, nrec := range []int{0, 3, 1001} {
+			c := c19Case{Header: []string{"id", "K"}, Flags: []string{"-v"}}
+			for i := 0; i < nrec; i++ {
+				c.Records = append(c.Records, []string{fmt.Sprint(i), fmt.Sprint(i % 7)})
+			}
+			n = job.Shard
+			if !run(c) {
+				return vs
+			}
+		}
+		return vs
+	case "binary":
+		// fields that are not valid UTF-8 and differ in one invalid byte only: every 2-record file over 3 such fields
+		fl := []string{"caf\xe9", "caf\xe8", "ok"}
+		for _, f1 := range fl {
+			for _, f2 := range fl {
+				for _, f3 := range fl {
+					for _, f4 := range fl {
+						raw := fmt.Sprintf("\"A\",\"b\xe9\"\n\"%s\",\"%s\"\n\"%s\",\"%s\"\n", f1, f2, f3, f4)
+						n = job.Shard
+						if !run(c19Case{RawHex: hex.EncodeToString([]byte(raw))}) {
+							return vs
+						}
+					}
+				}
+			}
+		}
+		return vs
 	case "large":
 		// record counts on both sides of the big writer's 1000-row commits and the in-memory writer's 1000-value batches
 		c := c19Case{Header: []string{"id", "K"}}
@@ -368,6 +439,9 @@ func c19Run(ctx *rt.Ctx) []*rt.Violation {
 	for _, n := range []int{2001, 1002, 1001, 1000, 999} {
 		add(c19Args{Family: "large", N: n}, 1)
 	}
+	add(c19Args{Family: "k4096"}, 1)
+	add(c19Args{Family: "flags"}, 1)
+	add(c19Args{Family: "binary"}, 1)
 	if ctx.Thorough() {
 		add(c19Args{Cols: 2, Records: 2}, 32)
 		add(c19Args{Cols: 2, Records: 3, Sub: true}, 16)
@@ -380,7 +454,7 @@ func c19Run(ctx *rt.Ctx) []*rt.Violation {
 	add(c19Args{Cols: 1, Records: 0}, 1)
 	outs := rt.RunJobs(ctx, jobs, rt.SpawnOpt{})
 	vs := rt.Collect(ctx, outs, nil)
-	ctx.Cov.Note("rule", "CSV files written by encoding/csv: headers from {A, 'b c', x1, É, '', Ab} (1 column; every ordered pair that stays distinct after normalisation), fields from {'', a, 'a,b', 'q\"q', 'l1\\nl2', é}; every file of the stated shape is run through the real `updog create` and `updog create --big`; the output must open, equal the model (schema with the naming rule, universe, every value count, group-by per column, joint group-by over all columns = multiset of records), and `updog schema` must exit 0; raw well-formed inputs with unquoted leading blanks / tabs in header and records (kept by a default csv reader); malformed inputs (ragged records, bare quotes, a bare quote after a blank, empty file, unterminated quote) and 3 pre-existing-output cases must exit non-zero leaving an existing output byte-identical; non-trivial = files with at least one record, and the malformed inputs")
+	ctx.Cov.Note("rule", "CSV files written by encoding/csv: headers from {A, 'b c', x1, É, '', Ab} (1 column; every ordered pair that stays distinct after normalisation), fields from {'', a, 'a,b', 'q\"q', 'l1\\nl2', é}; every file of the stated shape is run through the real `updog create` and `updog create --big`; the output must open, equal the model (schema with the naming rule, universe, every value count, group-by per column, joint group-by over all columns = multiset of records), and `updog schema` must exit 0; raw well-formed inputs with unquoted leading blanks / tabs in header and records (kept by a default csv reader); a file with values on exactly 4096 / 8192 / 5 records; the -v flag; fields that are not valid UTF-8 and differ in one byte; malformed inputs (ragged records, bare quotes, a bare quote after a blank, empty file, unterminated quote) and 3 pre-existing-output cases must exit non-zero leaving an existing output byte-identical; non-trivial = files with at least one record, and the malformed inputs")
 	ctx.Assumef("encoding/csv defines well-formedness; row order is observable only up to what counting queries can distinguish (the joint distribution of all columns)")
 	return vs
 }
